@@ -39,26 +39,10 @@ def gen():
 
 
 def ret_domain(info):
-    """values the bodies can return according to the translated return shapes (same computation
-    as Model/SelfTest.ret_values; used only to choose what to explore — the obligation itself is
-    checked by Coq)"""
-    shapes = info.get("shapes", {})
-    def vals(f, depth=0):
-        if depth > 8 or f not in shapes:
-            return None
-        kind, v = shapes[f]
-        if kind == "lits":
-            return sorted({x & 0xFFFFFFFF for x in v})
-        if kind == "or":
-            acc = {0}
-            for c in v:
-                cv = vals(c, depth + 1)
-                if cv is None:
-                    return None
-                acc = {x | y for x in acc for y in cv}
-            return sorted(acc)
-        return None
-    return vals("_aes_self_tests"), vals("_sha_self_tests")
+    """values the bodies can return according to the translated return expressions (tr/selftest.py
+    mirrors Model/SelfTest.rexp_vals; used only to choose what to explore — the obligation itself
+    is checked by Coq)"""
+    return info.get("aes_values"), info.get("sha_values")
 
 
 def coq_extra(name, body, timeout=600):
